@@ -4,6 +4,8 @@ set -e
 cd "$(dirname "$0")/.."
 export GOFLAGS=-mod=mod GOPROXY=off GOSUMDB=off GOTOOLCHAIN=local
 sh stubs/build.sh
+python3 bin/genmain.py
+python3 bin/genmain.py
 (cd extract && go build -o bin/lvextract .)
 mkdir -p lean/LinkVerif/Gen run evidence replays
 ./extract/bin/lvextract -repo "${VERIF_REPO:-/repo}" -out lean/LinkVerif/Gen
